@@ -1334,6 +1334,8 @@ func (fc *FCtx) callUnknownFuncValue(e *ast.CallExpr, st *State) ([]Val, bool) {
 		v := Val{T: fc.U.Fresh("fv", s), S: s, GoT: rt}
 		st.assume(fc.U.WF(v))
 		res = append(res, v)
+		// the results of the last call through a function value can be named in the contract: fvresult(i)
+		st.ghost[fmt.Sprintf("fv@r%d", i)] = v
 	}
 	return res, true
 }
